@@ -5,6 +5,7 @@ import (
 	"encoding/json"
 	"fmt"
 	"math/rand/v2"
+	"os"
 	"sort"
 	"strings"
 	"time"
@@ -105,6 +106,7 @@ type Profile struct {
 	Nested      bool
 	FewSteps    bool
 	QuietTimers bool
+	RetryHeavy  bool
 }
 
 type streamPair struct {
@@ -162,6 +164,8 @@ type Case struct {
 	knownSCQ []scqRef
 	trace    []string
 	stop     bool
+	// Scenario selects a scripted prelude (0 = none).
+	Scenario int
 }
 
 type scqRef struct {
@@ -232,6 +236,9 @@ func GenWorld(rng *rand.Rand, p Profile) *World {
 			pq.SizeClasses = pick(rng, [][]uint32{{0}, {0}, {1, 4}})
 		} else if rng.IntN(3) == 0 {
 			pq.Stick = pick(rng, stickSets)
+		}
+		if p.RetryHeavy && len(w.PQs) == 0 {
+			pq.SizeClasses = pick(rng, [][]uint32{{1, 4}, {1, 2, 8}, {2, 5}})
 		}
 		k := pq.Prefix + "|" + CanonPlatform(pq.Props)
 		if used[k] {
@@ -318,6 +325,9 @@ func GenWorld(rng *rand.Rand, p Profile) *World {
 			BGIndex:     pick(rng, []int{0, -1, 1}),
 			BGExpDur:    5 * time.Second,
 			BGTimeout:   45 * time.Second,
+		}
+		if p.RetryHeavy && rng.IntN(10) < 6 {
+			ad.Script.Index, ad.Script.RetryOnFail = 0, true
 		}
 		w.Actions = append(w.Actions, ad)
 	}
@@ -573,7 +583,28 @@ func (c *Case) ChooseWorker(t *MTask, cands []*MWorker) int {
 		cs = append(cs, w.Key)
 	}
 	if got == nil {
-		c.diverge("task-queued-while-worker-parked", []string{"C04"}, "%s was not handed to any of the parked workers %v", taskStr(t), cs)
+		_, problems := c.Env.BQ.VerifCheckInvariants()
+		var seen []string
+		for _, w := range cands {
+			seen = append(seen, w.Key+" => "+c.realObs(c.realSync[w.Key]).String())
+		}
+		if n := len(c.streams); n > 0 {
+			seen = append(seen, fmt.Sprintf("last stream: %v", briefs(c.streams[n-1].call.Stream.Messages())))
+		}
+		for k, sp := range c.realSync {
+			seen = append(seen, fmt.Sprintf("realSync[%s] done=%v obs=%s modelState=%s", k, sp.call.Done(), c.realObs(sp), func() string {
+				if sp.m == nil {
+					return "<nil>"
+				}
+				return sp.m.State
+			}()))
+		}
+		if lo, err := c.Env.BQ.ListOperations(context.Background(), &buildqueuestate.ListOperationsRequest{PageSize: 100}); err == nil {
+			for _, o := range lo.Operations {
+				seen = append(seen, fmt.Sprintf("op %s %T inv=%v sc=%d", o.Name[len(o.Name)-4:], o.Stage, len(o.InvocationName.GetIds()), o.InvocationName.GetSizeClassQueueName().GetSizeClass()))
+			}
+		}
+		c.diverge("task-queued-while-worker-parked", []string{"C04"}, "%s was not handed to any of the parked workers %v (their Synchronize calls: %v; structural problems reported by the hook: %v)", taskStr(t), cs, seen, problems)
 		return -1
 	}
 	for i, w := range cands {
@@ -730,6 +761,9 @@ func briefs(ms []Msg) []briefMsg {
 func (c *Case) compareSync(sp *syncPair) {
 	obs := c.realObs(sp)
 	m := sp.m
+	if os.Getenv("VERIF_ONLY_CASE") != "" {
+		c.tracef("  sync worker %d: model %s/%s %s, real %s", sp.w, m.State, m.RetCode, respStr(m.Resp), obs)
+	}
 	if m.State != "returned" {
 		if obs != nil {
 			if obs.Kind == "executing" && m.W != nil {
@@ -1316,6 +1350,22 @@ func (c *Case) genStep() (Step, bool) {
 			return Step{K: "cancel", S: pick(rng, l)}, true
 		case "sync":
 			w := rng.IntN(len(c.W.Workers))
+			if rng.IntN(10) < 4 {
+				// Prefer a worker whose task is on a rare path: being
+				// retried on the largest size class, or already re-sent.
+				var rare []int
+				for wi := range c.W.Workers {
+					if _, busy := c.syncs[wi]; busy {
+						continue
+					}
+					if mw := c.modelWorker(wi); mw != nil && mw.Task != nil && (mw.Task.Learner == "learner2" || mw.Task.RetryCount > 0 || len(mw.Task.Ops) > 1) {
+						rare = append(rare, wi)
+					}
+				}
+				if len(rare) > 0 {
+					w = pick(rng, rare)
+				}
+			}
 			if _, busy := c.syncs[w]; busy {
 				if rng.IntN(10) == 0 {
 					return Step{K: "dupsync", W: w, State: "idle"}, true
@@ -1468,6 +1518,10 @@ func (c *Case) Run(replay []Step) *CaseResult {
 	if replay != nil {
 		n = len(replay)
 	}
+	var prelude []Step
+	if replay == nil {
+		prelude = c.scenarioPrelude()
+	}
 	for k := 0; k < n && !c.stop; k++ {
 		c.step = k
 		var s Step
@@ -1475,7 +1529,15 @@ func (c *Case) Run(replay []Step) *CaseResult {
 			s = replay[k]
 		} else {
 			var ok bool
-			s, ok = c.genStep()
+			if k < len(prelude) {
+				s, ok = prelude[k], true
+				if _, busy := c.syncs[s.W]; busy && s.K == "sync" {
+					// The worker is still blocked in its previous call.
+					ok = false
+				}
+			} else {
+				s, ok = c.genStep()
+			}
 			if !ok {
 				continue
 			}
@@ -1975,4 +2037,83 @@ func (c *Case) leakPhase() {
 			return
 		}
 	}
+}
+
+// ---------------------------------------------------------------------------
+// Scenario preludes: multi-step sequences that random generation reaches too
+// rarely. A prelude is a fixed list of steps computed from the world; the
+// reference model judges it like any other step, and random steps follow.
+
+// Scenario selects the prelude of a case (0 = none).
+func (c *Case) scenarioPrelude() []Step {
+	if c.Scenario == 0 {
+		return nil
+	}
+	// Find a predeclared queue with at least two size classes, a worker
+	// on its smallest and one on its largest class, and an action that
+	// starts on the smallest class and is retried on failure.
+	for _, pq := range c.W.PQs {
+		if len(pq.SizeClasses) < 2 {
+			continue
+		}
+		small, large := -1, -1
+		for wi, wd := range c.W.Workers {
+			if wd.Prefix != pq.Prefix || CanonPlatform(wd.Props) != CanonPlatform(pq.Props) {
+				continue
+			}
+			if wd.SizeClass == pq.SizeClasses[0] && small < 0 {
+				small = wi
+			}
+			if wd.SizeClass == pq.SizeClasses[len(pq.SizeClasses)-1] && large < 0 {
+				large = wi
+			}
+		}
+		act := -1
+		for ai, a := range c.W.Actions {
+			if a.InCAS && !a.DoNotCache && a.Instance == pq.Prefix && CanonPlatform(a.Props) == CanonPlatform(pq.Props) && a.Script.Index == 0 && a.Script.RetryOnFail {
+				act = ai
+			}
+		}
+		if small < 0 || large < 0 || act < 0 {
+			continue
+		}
+		a := c.W.Actions[act]
+		ms := time.Millisecond
+		idle := func(w int) Step { return Step{K: "sync", W: w, State: "idle", Pre: 2 * ms} }
+		done := func(w int, out string) Step {
+			return Step{K: "sync", W: w, State: "completed", Hash: a.Hash, Size: a.Size, Out: out, Pre: 2 * ms}
+		}
+		exec := func(path string) Step { return Step{K: "exec", A: act, Path: path, Pre: 2 * ms} }
+		switch c.Scenario {
+		case 1:
+			// Retry budget is per assignment: the first worker uses
+			// its whole budget of redundant requests, fails, and the
+			// worker on the largest size class asks redundantly once.
+			c.sit("scenario:retry-budget-after-size-class-fall-back")
+			st := []Step{idle(small), exec("x")}
+			for k := 0; k < c.W.Cfg.RetryCount; k++ {
+				st = append(st, idle(small))
+			}
+			return append(st, done(small, "exit1"), idle(large), idle(large), done(large, "ok"))
+		case 2:
+			// A duplicate arrives while the task waits for its retry
+			// on the largest size class.
+			c.sit("scenario:duplicate-during-retry-on-largest")
+			return []Step{idle(small), exec("x"), done(small, "deadline"), exec("y"), exec("x"), idle(large), exec("y/p"), done(large, "ok"), idle(large)}
+		case 3:
+			// Foreground task, background learning task for the same
+			// digest, a second foreground task, completion of the
+			// background task, a third request.
+			if !a.Script.Background || pq.MaxBG == 0 {
+				return nil
+			}
+			c.sit("scenario:background-task-completes-while-foreground-task-is-live")
+			bgw := small
+			if ResolveIndex(a.Script.BGIndex, len(pq.SizeClasses)) == len(pq.SizeClasses)-1 {
+				bgw = large
+			}
+			return []Step{idle(small), exec("x"), done(small, "ok"), exec("y"), idle(bgw), exec("x"), done(bgw, "ok"), exec("y/p"), idle(small), idle(large)}
+		}
+	}
+	return nil
 }
